@@ -91,6 +91,10 @@ Op == /\ open_ = "yes" /\ nops < MaxOps /\ Len(srv) <= MaxLen /\ nops' = nops + 
 Read(size, o) ==
     /\ Op /\ lbl' = <<"read", size, o>>
     /\ ~(~Readable(mode) /\ o = NoneOff /\ off = NoneOff)
+    \* (not explored either: an explicit offset at or beyond the end of the file --
+    \* whether the position then moves to that offset depends on whether the read is
+    \* split into blocks; reads from the current position cover the end of file)
+    /\ o # NoneOff => o < Len(srv)
     /\ UNCHANGED <<srv, ref, nwr>>
     /\ IF ~Readable(mode)
        THEN ret' = <<"error">> /\ rret' = <<"error">> /\ UNCHANGED <<off, pos>>
